@@ -351,7 +351,19 @@ impl FileSpec {
                 file_stem_string[(index + 9)..(index + 13)].parse::<usize>().unwrap(/*ok*/) + 1
             };
 
-            infix.to_string().add(&format!(".restart-{next_number:04}"))
+            // the listing can be incomplete (e.g. if the directory could not be read):
+            // a name that is in use must never be handed out
+            let mut next_number = next_number;
+            loop {
+                let candidate = infix.to_string().add(&format!(".restart-{next_number:04}"));
+                let path = self.as_pathbuf(Some(&candidate));
+                let mut path_with_gz = path.clone().into_os_string();
+                path_with_gz.push(".gz");
+                if !path.exists() && !PathBuf::from(path_with_gz).exists() {
+                    break candidate;
+                }
+                next_number += 1;
+            }
         } else {
             infix.to_string()
         }
